@@ -185,6 +185,9 @@ package importer
 //@   ghostset @call:fmt.Sprintf line
 //@   loop 0 step [every-property-gets-a-line] ghost("line")
 //@   assert @call:importer.getSyslSafeName [named-after-the-property] arg0 == prop.Name
+// the size specification goes directly behind the type name (or behind the field name of a sequence) as computed:
+// markers such as the optional '?' belong to the suffix that follows it
+//@   assert @call:importer.appendSizeSpec [size-directly-behind-the-type-or-the-name] arg0 == getSyslTypeName(prop.Type) || hasPrefix(getSyslTypeName(prop.Type), "sequence of ")
 
 //@ func (*writer).writeUnion
 //@   maypanic
@@ -226,3 +229,7 @@ package importer
 //@ func getSyslSafeName
 //@   maypanic
 //@   assert @call:regexp.MustCompile [name-start-is-the-rule-of-the-grammar] arg0 == "^(%[0-9a-fA-F][0-9a-fA-F])*[a-zA-Z_]"
+
+//@ func getSyslTypeName
+//@   deterministic
+//@   maypanic
